@@ -1691,6 +1691,11 @@ class WassersteinVectorizer(BaseEstimator, TransformerMixin):
                     lot_dimension = reference_size * vectors.shape[1]
                     block_size = max(1, memory_size // (lot_dimension * 8))
                     u, s, v = scipy.sparse.linalg.svds(X, k=1)
+                    # ARPACK starts from a random vector, so the sign of the singular vector is arbitrary;
+                    # X is non-negative, so take the non-negative orientation: the reference (and hence the
+                    # fitted model) is then the same for the same random_state
+                    if v.sum() < 0:
+                        v = -v
                     reference_center = v @ vectors
                     if metric == cosine:
                         reference_center /= np.sqrt(np.sum(reference_center**2))
@@ -2391,6 +2396,11 @@ class SinkhornVectorizer(BaseEstimator, TransformerMixin):
                 lot_dimension = reference_size * vectors.shape[1]
                 block_size = max(1, memory_size // (lot_dimension * 8))
                 u, s, v = scipy.sparse.linalg.svds(X, k=1)
+                # ARPACK starts from a random vector, so the sign of the singular vector is arbitrary;
+                # X is non-negative, so take the non-negative orientation: the reference (and hence the
+                # fitted model) is then the same for the same random_state
+                if v.sum() < 0:
+                    v = -v
                 reference_center = v @ vectors
                 if metric == cosine:
                     reference_center /= np.sqrt(np.sum(reference_center**2))
@@ -2906,6 +2916,11 @@ class WassersteinVectorizerOld(BaseEstimator, TransformerMixin):
                 lot_dimension = reference_size * vectors.shape[1]
                 block_size = max(1, memory_size // (lot_dimension * 8))
                 u, s, v = scipy.sparse.linalg.svds(X, k=1)
+                # ARPACK starts from a random vector, so the sign of the singular vector is arbitrary;
+                # X is non-negative, so take the non-negative orientation: the reference (and hence the
+                # fitted model) is then the same for the same random_state
+                if v.sum() < 0:
+                    v = -v
                 reference_center = v @ vectors
                 if metric == cosine:
                     reference_center /= np.sqrt(np.sum(reference_center**2))
